@@ -164,6 +164,15 @@ def gen_cfg(rng, shape=None, nnt=None, nterms=None, convergent=True, maxrules=8,
         rules.append([rng.choice(SMALL), A, [B]])
         rules.append([rng.choice(SMALL), B, [A]])
         rules.append([rng.choice(SMALL), B, [B, A]])
+    # orthogonal twist: an EXACT duplicate (same weight, head, body) of some rule — rule lists are multisets, while
+    # `Rule` hashes/compares structurally, so anything keyed by Rule objects silently merges the copies
+    if shape == "useless" and rng.random() < 0.6:
+        dead = [r for r in rules if len(r[2]) >= 2 and "U2" in r[2]]
+        r = rng.choice(dead)
+        rules.append([r[0], r[1], list(r[2])])
+    elif rng.random() < 0.3 and rules:
+        r = rng.choice(rules)
+        rules.append([r[0], r[1], list(r[2])])
     rng.shuffle(rules)
     V = set(terms)
     # unary part: keep every row of the unary matrix below 1/2 so that its closure converges
